@@ -246,6 +246,10 @@ KEY_ATTRS = ("price", "placed_at", "order_id", "kind", "is_buy")
 @rule("C02.R3", "sort keys of an order are written only before it enters a book", "T1 who-may-write + T5 ordering", floor=5)
 def r3(ctx: Ctx) -> None:
     p = ctx.program
+    # an order enters a book once: OrderBook.add stamps the acceptance time, so adding a resting order
+    # again (e.g. to put it back after a round) gives it a new place in the time priority
+    for s_ in ctx.cg.sites_calling("OrderBook.add"):
+        ctx.check(caller_ok(ctx, s_.caller, lambda g: g.qualname == "Market._add_order"), s_.caller, s_.node, "caller of OrderBook.add (which stamps the acceptance time)", "Market._add_order", s_.caller.qualname)
     for attr in KEY_ATTRS:
         for w in ctx.cg.writers_of("Order", attr, kinds=("store", "aug", "del")):
             f = w.func
